@@ -48,13 +48,15 @@ Record pconf := mkConf {
 
 Record gconf := mkG { g_priority : Z; g_procs : list nat (* process indices, in dict order *) }.
 
+(* the process state itself is kept apart (world.sts) so that change_state is
+   its only writer by construction, as in the code *)
 Record proc := mkProc {
-  st : pstate; pid : Z; killing : bool; delay : Z; backoff : Z;
+  pid : Z; killing : bool; delay : Z; backoff : Z;
   laststart : Z; laststop : Z; exitstatus : option Z; spawnerr : bool;
   admin_stop : bool; system_stop : bool }.
 
 Definition proc0 : proc :=
-  mkProc STOPPED 0 false 0 0 0 0 None false false false.
+  mkProc 0 false 0 0 0 0 None false false false.
 
 Inductive effect :=
 | EFork (who : nat) (p : Z)
@@ -75,7 +77,8 @@ Inductive deferred :=
 | DAll (req : Z) (k : dkind) (wait : bool) (todo : option (list nat)) (cbs : list nat) (results : list (nat * Z)).
 
 Record world := mkW {
-  procs : list proc;
+  sts : nat -> pstate;          (* Subprocess.state of every process *)
+  procs : nat -> proc;
   live : list Z;                (* kernel: live children, fork order *)
   zombies : list (Z * Z);       (* kernel: dead, not yet waited for: (pid, wait status), FIFO *)
   nextpid : Z;
@@ -111,75 +114,45 @@ Definition bind {A B} (m : M A) (f : A -> M B) : M B :=
 Notation "x <- m ;; k" := (bind m (fun x => k)) (at level 61, m at next level, right associativity).
 Notation "m ;;; k" := (bind m (fun _ => k)) (at level 61, right associativity).
 
-Definition emit (e : effect) : M unit :=
-  fun w => (Some tt, mkW (procs w) (live w) (zombies w) (nextpid w) (pidhist w) (mood w) (stopping w)
-                         (stop_groups w) (now w) (forkq w) (killq w) (sigq w) (pend w) (e :: out w)
-                         (crashed w) (exited w)).
-Definition crash {A} (site : Z) : M A :=
-  fun w => (None, mkW (procs w) (live w) (zombies w) (nextpid w) (pidhist w) (mood w) (stopping w)
-                      (stop_groups w) (now w) (forkq w) (killq w) (sigq w) (pend w) (ECrash site :: out w)
-                      true (exited w)).
+Definition set_out (o : list effect) (w : world) : world := mkW (sts w) (procs w) (live w) (zombies w) (nextpid w) (pidhist w) (mood w) (stopping w) (stop_groups w) (now w) (forkq w) (killq w) (sigq w) (pend w) (o) (crashed w) (exited w).
+Definition set_crashed (w : world) : world := mkW (sts w) (procs w) (live w) (zombies w) (nextpid w) (pidhist w) (mood w) (stopping w) (stop_groups w) (now w) (forkq w) (killq w) (sigq w) (pend w) (out w) (true) (exited w).
+Definition emit (e : effect) : M unit := fun w => (Some tt, set_out (e :: out w) w).
+Definition crash {A} (site : Z) : M A := fun w => (None, set_crashed (set_out (ECrash site :: out w) w)).
 Definition getw : M world := fun w => (Some w, w).
-Definition putw (w' : world) : M unit := fun _ => (Some tt, w').
 
-Definition set_procs (ps : list proc) (w : world) : world :=
-  mkW ps (live w) (zombies w) (nextpid w) (pidhist w) (mood w) (stopping w) (stop_groups w) (now w)
-      (forkq w) (killq w) (sigq w) (pend w) (out w) (crashed w) (exited w).
-Definition set_kernel (l : list Z) (z : list (Z * Z)) (np : Z) (w : world) : world :=
-  mkW (procs w) l z np (pidhist w) (mood w) (stopping w) (stop_groups w) (now w)
-      (forkq w) (killq w) (sigq w) (pend w) (out w) (crashed w) (exited w).
-Definition set_pidhist (h : list (Z * nat)) (w : world) : world :=
-  mkW (procs w) (live w) (zombies w) (nextpid w) h (mood w) (stopping w) (stop_groups w) (now w)
-      (forkq w) (killq w) (sigq w) (pend w) (out w) (crashed w) (exited w).
-Definition set_mood (m : Z) (w : world) : world :=
-  mkW (procs w) (live w) (zombies w) (nextpid w) (pidhist w) m (stopping w) (stop_groups w) (now w)
-      (forkq w) (killq w) (sigq w) (pend w) (out w) (crashed w) (exited w).
-Definition set_stopping (b : bool) (sg : list nat) (w : world) : world :=
-  mkW (procs w) (live w) (zombies w) (nextpid w) (pidhist w) (mood w) b sg (now w)
-      (forkq w) (killq w) (sigq w) (pend w) (out w) (crashed w) (exited w).
-Definition set_pass (t : Z) (fq kq : list Z) (w : world) : world :=
-  mkW (procs w) (live w) (zombies w) (nextpid w) (pidhist w) (mood w) (stopping w) (stop_groups w) t
-      fq kq (sigq w) (pend w) (out w) (crashed w) (exited w).
-Definition set_forkq (fq : list Z) (w : world) : world :=
-  mkW (procs w) (live w) (zombies w) (nextpid w) (pidhist w) (mood w) (stopping w) (stop_groups w) (now w)
-      fq (killq w) (sigq w) (pend w) (out w) (crashed w) (exited w).
-Definition set_killq (kq : list Z) (w : world) : world :=
-  mkW (procs w) (live w) (zombies w) (nextpid w) (pidhist w) (mood w) (stopping w) (stop_groups w) (now w)
-      (forkq w) kq (sigq w) (pend w) (out w) (crashed w) (exited w).
-Definition set_sigq (q : list Z) (w : world) : world :=
-  mkW (procs w) (live w) (zombies w) (nextpid w) (pidhist w) (mood w) (stopping w) (stop_groups w) (now w)
-      (forkq w) (killq w) q (pend w) (out w) (crashed w) (exited w).
-Definition set_pend (d : list deferred) (w : world) : world :=
-  mkW (procs w) (live w) (zombies w) (nextpid w) (pidhist w) (mood w) (stopping w) (stop_groups w) (now w)
-      (forkq w) (killq w) (sigq w) d (out w) (crashed w) (exited w).
-Definition set_exited (w : world) : world :=
-  mkW (procs w) (live w) (zombies w) (nextpid w) (pidhist w) (mood w) (stopping w) (stop_groups w) (now w)
-      (forkq w) (killq w) (sigq w) (pend w) (EExitNow :: out w) (crashed w) true.
+Definition set_sts (f : nat -> pstate) (w : world) : world := mkW (f) (procs w) (live w) (zombies w) (nextpid w) (pidhist w) (mood w) (stopping w) (stop_groups w) (now w) (forkq w) (killq w) (sigq w) (pend w) (out w) (crashed w) (exited w).
+Definition set_procs (ps : nat -> proc) (w : world) : world := mkW (sts w) (ps) (live w) (zombies w) (nextpid w) (pidhist w) (mood w) (stopping w) (stop_groups w) (now w) (forkq w) (killq w) (sigq w) (pend w) (out w) (crashed w) (exited w).
+Definition set_kernel (l : list Z) (z : list (Z * Z)) (np : Z) (w : world) : world := mkW (sts w) (procs w) (l) (z) (np) (pidhist w) (mood w) (stopping w) (stop_groups w) (now w) (forkq w) (killq w) (sigq w) (pend w) (out w) (crashed w) (exited w).
+Definition set_pidhist (h : list (Z * nat)) (w : world) : world := mkW (sts w) (procs w) (live w) (zombies w) (nextpid w) (h) (mood w) (stopping w) (stop_groups w) (now w) (forkq w) (killq w) (sigq w) (pend w) (out w) (crashed w) (exited w).
+Definition set_mood (m : Z) (w : world) : world := mkW (sts w) (procs w) (live w) (zombies w) (nextpid w) (pidhist w) (m) (stopping w) (stop_groups w) (now w) (forkq w) (killq w) (sigq w) (pend w) (out w) (crashed w) (exited w).
+Definition set_stopping (b : bool) (sg : list nat) (w : world) : world := mkW (sts w) (procs w) (live w) (zombies w) (nextpid w) (pidhist w) (mood w) (b) (sg) (now w) (forkq w) (killq w) (sigq w) (pend w) (out w) (crashed w) (exited w).
+Definition set_pass (t : Z) (fq kq : list Z) (w : world) : world := mkW (sts w) (procs w) (live w) (zombies w) (nextpid w) (pidhist w) (mood w) (stopping w) (stop_groups w) (t) (fq) (kq) (sigq w) (pend w) (out w) (crashed w) (exited w).
+Definition set_forkq (fq : list Z) (w : world) : world := mkW (sts w) (procs w) (live w) (zombies w) (nextpid w) (pidhist w) (mood w) (stopping w) (stop_groups w) (now w) (fq) (killq w) (sigq w) (pend w) (out w) (crashed w) (exited w).
+Definition set_killq (kq : list Z) (w : world) : world := mkW (sts w) (procs w) (live w) (zombies w) (nextpid w) (pidhist w) (mood w) (stopping w) (stop_groups w) (now w) (forkq w) (kq) (sigq w) (pend w) (out w) (crashed w) (exited w).
+Definition set_sigq (q : list Z) (w : world) : world := mkW (sts w) (procs w) (live w) (zombies w) (nextpid w) (pidhist w) (mood w) (stopping w) (stop_groups w) (now w) (forkq w) (killq w) (q) (pend w) (out w) (crashed w) (exited w).
+Definition set_pend (d : list deferred) (w : world) : world := mkW (sts w) (procs w) (live w) (zombies w) (nextpid w) (pidhist w) (mood w) (stopping w) (stop_groups w) (now w) (forkq w) (killq w) (sigq w) (d) (out w) (crashed w) (exited w).
+Definition set_exited (w : world) : world := mkW (sts w) (procs w) (live w) (zombies w) (nextpid w) (pidhist w) (mood w) (stopping w) (stop_groups w) (now w) (forkq w) (killq w) (sigq w) (pend w) (EExitNow :: out w) (crashed w) (true).
 
 Definition modw (f : world -> world) : M unit := fun w => (Some tt, f w).
 
-Fixpoint upd {A} (l : list A) (i : nat) (x : A) : list A :=
-  match l, i with
-  | [], _ => []
-  | _ :: r, O => x :: r
-  | y :: r, S j => y :: upd r j x
-  end.
+Definition upd {A} (f : nat -> A) (i : nat) (x : A) : nat -> A :=
+  fun j => if Nat.eqb j i then x else f j.
 
-Definition getp (i : nat) : M proc := fun w => (Some (nth i (procs w) proc0), w).
+Definition getp (i : nat) : M proc := fun w => (Some (procs w i), w).
 Definition setp (i : nat) (p : proc) : M unit := modw (fun w => set_procs (upd (procs w) i p) w).
+Definition gets (i : nat) : M pstate := fun w => (Some (sts w i), w).
 
 (* field setters on proc *)
-Definition p_st (p : proc) (s : pstate) := mkProc s (pid p) (killing p) (delay p) (backoff p) (laststart p) (laststop p) (exitstatus p) (spawnerr p) (admin_stop p) (system_stop p).
-Definition p_pid (p : proc) (x : Z) := mkProc (st p) x (killing p) (delay p) (backoff p) (laststart p) (laststop p) (exitstatus p) (spawnerr p) (admin_stop p) (system_stop p).
-Definition p_killing (p : proc) (b : bool) := mkProc (st p) (pid p) b (delay p) (backoff p) (laststart p) (laststop p) (exitstatus p) (spawnerr p) (admin_stop p) (system_stop p).
-Definition p_delay (p : proc) (x : Z) := mkProc (st p) (pid p) (killing p) x (backoff p) (laststart p) (laststop p) (exitstatus p) (spawnerr p) (admin_stop p) (system_stop p).
-Definition p_backoff (p : proc) (x : Z) := mkProc (st p) (pid p) (killing p) (delay p) x (laststart p) (laststop p) (exitstatus p) (spawnerr p) (admin_stop p) (system_stop p).
-Definition p_laststart (p : proc) (x : Z) := mkProc (st p) (pid p) (killing p) (delay p) (backoff p) x (laststop p) (exitstatus p) (spawnerr p) (admin_stop p) (system_stop p).
-Definition p_laststop (p : proc) (x : Z) := mkProc (st p) (pid p) (killing p) (delay p) (backoff p) (laststart p) x (exitstatus p) (spawnerr p) (admin_stop p) (system_stop p).
-Definition p_exitstatus (p : proc) (x : option Z) := mkProc (st p) (pid p) (killing p) (delay p) (backoff p) (laststart p) (laststop p) x (spawnerr p) (admin_stop p) (system_stop p).
-Definition p_spawnerr (p : proc) (b : bool) := mkProc (st p) (pid p) (killing p) (delay p) (backoff p) (laststart p) (laststop p) (exitstatus p) b (admin_stop p) (system_stop p).
-Definition p_admin (p : proc) (b : bool) := mkProc (st p) (pid p) (killing p) (delay p) (backoff p) (laststart p) (laststop p) (exitstatus p) (spawnerr p) b (system_stop p).
-Definition p_system (p : proc) (b : bool) := mkProc (st p) (pid p) (killing p) (delay p) (backoff p) (laststart p) (laststop p) (exitstatus p) (spawnerr p) (admin_stop p) b.
+Definition p_pid (p : proc) (x : Z) : proc := mkProc (x) (killing p) (delay p) (backoff p) (laststart p) (laststop p) (exitstatus p) (spawnerr p) (admin_stop p) (system_stop p).
+Definition p_killing (p : proc) (x : bool) : proc := mkProc (pid p) (x) (delay p) (backoff p) (laststart p) (laststop p) (exitstatus p) (spawnerr p) (admin_stop p) (system_stop p).
+Definition p_delay (p : proc) (x : Z) : proc := mkProc (pid p) (killing p) (x) (backoff p) (laststart p) (laststop p) (exitstatus p) (spawnerr p) (admin_stop p) (system_stop p).
+Definition p_backoff (p : proc) (x : Z) : proc := mkProc (pid p) (killing p) (delay p) (x) (laststart p) (laststop p) (exitstatus p) (spawnerr p) (admin_stop p) (system_stop p).
+Definition p_laststart (p : proc) (x : Z) : proc := mkProc (pid p) (killing p) (delay p) (backoff p) (x) (laststop p) (exitstatus p) (spawnerr p) (admin_stop p) (system_stop p).
+Definition p_laststop (p : proc) (x : Z) : proc := mkProc (pid p) (killing p) (delay p) (backoff p) (laststart p) (x) (exitstatus p) (spawnerr p) (admin_stop p) (system_stop p).
+Definition p_exitstatus (p : proc) (x : option Z) : proc := mkProc (pid p) (killing p) (delay p) (backoff p) (laststart p) (laststop p) (x) (spawnerr p) (admin_stop p) (system_stop p).
+Definition p_spawnerr (p : proc) (x : bool) : proc := mkProc (pid p) (killing p) (delay p) (backoff p) (laststart p) (laststop p) (exitstatus p) (x) (admin_stop p) (system_stop p).
+Definition p_admin (p : proc) (x : bool) : proc := mkProc (pid p) (killing p) (delay p) (backoff p) (laststart p) (laststop p) (exitstatus p) (spawnerr p) (x) (system_stop p).
+Definition p_system (p : proc) (x : bool) : proc := mkProc (pid p) (killing p) (delay p) (backoff p) (laststart p) (laststop p) (exitstatus p) (spawnerr p) (admin_stop p) (x).
 
 Definition modp (i : nat) (f : proc -> proc) : M unit := p <- getp i ;; setp i (f p).
 
@@ -192,19 +165,20 @@ Definition extra_value (s : pstate) (p : proc) : Z :=
   end.
 
 Definition change_state (i : nat) (new : pstate) (expected : bool) : M unit :=
-  p <- getp i ;;
-  if pstate_eqb new (st p) then ret tt
+  old <- gets i ;;
+  if pstate_eqb new old then ret tt
   else
     w <- getw ;;
-    let p1 := p_st p new in
+    p <- getp i ;;
+    modw (fun w => set_sts (upd (sts w) i new) w) ;;;
     let p2 := if pstate_eqb new BACKOFF
-              then p_delay (p_backoff p1 (backoff p1 + 1)) (now w + (backoff p1 + 1) * U)
-              else p1 in
+              then p_delay (p_backoff p (backoff p + 1)) (now w + (backoff p + 1) * U)
+              else p in
     setp i p2 ;;;
-    emit (EState i (st p) new (extra_value new p2) expected).
+    emit (EState i old new (extra_value new p2) expected).
 
 Definition assert_in (i : nat) (site : Z) (ok : pstate -> bool) : M unit :=
-  p <- getp i ;; if ok (st p) then ret tt else crash site.
+  s <- gets i ;; if ok s then ret tt else crash site.
 
 (* ---- kernel *)
 Definition pop {A} (l : list A) (d : A) : A * list A :=
@@ -272,26 +246,28 @@ Definition spawn (i : nat) : M unit :=
     end.
 
 (* ---- _check_and_adjust_for_system_clock_rollback (process.py:357-377); laststopreport is log-only *)
-Definition rollback_adjust (i : nat) (t : Z) : M unit :=
-  p <- getp i ;;
-  let c := cf i in
-  match st p with
+Definition adjust_times (s : pstate) (c : pconf) (t : Z) (p : proc) : proc :=
+  match s with
   | STARTING =>
     let p1 := if t <? laststart p then p_laststart p t else p in
-    let p2 := if (delay p1 >? 0) && (t <? delay p1 - c_startsecs c * U)
-              then p_delay p1 (t + c_startsecs c * U) else p1 in
-    setp i p2
+    if (delay p1 >? 0) && (t <? delay p1 - c_startsecs c * U)
+    then p_delay p1 (t + c_startsecs c * U) else p1
   | RUNNING =>
     if (t >? laststart p) && (t <? laststart p + c_startsecs c * U)
-    then setp i (p_laststart p (t - c_startsecs c * U)) else ret tt
+    then p_laststart p (t - c_startsecs c * U) else p
   | STOPPING =>
     if (delay p >? 0) && (t <? delay p - c_stopwaitsecs c * U)
-    then setp i (p_delay p (t + c_stopwaitsecs c * U)) else ret tt
+    then p_delay p (t + c_stopwaitsecs c * U) else p
   | BACKOFF =>
     if (delay p >? 0) && (t <? delay p - backoff p * U)
-    then setp i (p_delay p (t + backoff p * U)) else ret tt
-  | _ => ret tt
+    then p_delay p (t + backoff p * U) else p
+  | _ => p
   end.
+
+Definition rollback_adjust (i : nat) (t : Z) : M unit :=
+  p <- getp i ;;
+  s <- gets i ;;
+  setp i (adjust_times s (cf i) t p).
 
 (* ---- Subprocess.give_up (397-402) *)
 Definition give_up (i : nat) : M unit :=
@@ -303,10 +279,11 @@ Definition give_up (i : nat) : M unit :=
 Definition kill (i : nat) (sig : Z) : M bool :=
   w <- getw ;;
   p <- getp i ;;
-  if pstate_eqb (st p) BACKOFF then change_state i STOPPED true ;;; ret false
+  s <- gets i ;;
+  if pstate_eqb s BACKOFF then change_state i STOPPED true ;;; ret false
   else if pid p =? 0 then ret true
   else
-    let asgroup := if pstate_eqb (st p) STOPPING then c_killasgroup (cf i) else c_stopasgroup (cf i) in
+    let asgroup := if pstate_eqb s STOPPING then c_killasgroup (cf i) else c_stopasgroup (cf i) in
     setp i (p_delay (p_killing p true) (now w + c_stopwaitsecs (cf i) * U)) ;;;
     assert_in i 6 (fun s => match s with RUNNING | STARTING | STOPPING => true | _ => false end) ;;;
     change_state i STOPPING true ;;;
@@ -343,9 +320,10 @@ Definition finish (i : nat) (sts : Z) : M unit :=
   rollback_adjust i (now w) ;;;
   modp i (fun p => p_laststop p (now w)) ;;;
   p <- getp i ;;
+  s <- gets i ;;
   let too_quickly := if now w >? laststart p then now w - laststart p <? c_startsecs (cf i) * U else false in
   let exit_expected := mem_z es (c_exitcodes (cf i)) in
-  (if pstate_eqb (st p) UNKNOWN then
+  (if pstate_eqb s UNKNOWN then
      setp i (p_exitstatus (p_delay (p_killing p false) 0) (Some es))
    else if killing p then
      setp i (p_exitstatus (p_delay (p_killing p false) 0) (Some es)) ;;;
@@ -357,7 +335,7 @@ Definition finish (i : nat) (sts : Z) : M unit :=
      change_state i BACKOFF true
    else
      setp i (p_exitstatus (p_backoff (p_delay p 0) 0) (Some es)) ;;;
-     (if pstate_eqb (st p) STARTING then change_state i RUNNING true else ret tt) ;;;
+     (if pstate_eqb s STARTING then change_state i RUNNING true else ret tt) ;;;
      assert_in i 10 (fun s => pstate_eqb s RUNNING) ;;;
      (if exit_expected then change_state i EXITED true
       else modp i (fun p => p_spawnerr p true) ;;; change_state i EXITED false)) ;;;
@@ -366,8 +344,7 @@ Definition finish (i : nat) (sts : Z) : M unit :=
 (* ---- Subprocess.transition (656-718) *)
 Definition transition (i : nat) : M unit :=
   w <- getw ;;
-  p0 <- getp i ;;
-  let state := st p0 in
+  state <- gets i ;;
   let c := cf i in
   rollback_adjust i (now w) ;;;
   (if mood w >? 0 then
@@ -453,15 +430,15 @@ Fixpoint mapM_ {A} (f : A -> M unit) (l : list A) : M unit :=
 (* ---- ProcessGroupBase.stop_all (process.py:813-828) *)
 Definition stop_all (g : nat) : M unit :=
   mapM_ (fun i =>
-           p <- getp i ;;
-           match st p with
+           s <- gets i ;;
+           match s with
            | RUNNING | STARTING => b <- stop i ;; ret tt
            | BACKOFF => give_up i
            | _ => ret tt
            end) (rev (procs_by_priority g)).
 
 Definition unstopped (g : nat) (w : world) : bool :=
-  existsb (fun i => negb (in_stopped_states (st (nth i (procs w) proc0)))) (g_procs (gc g)).
+  existsb (fun i => negb (in_stopped_states (sts w i))) (g_procs (gc g)).
 
 (* ---- handle_signal (supervisord.py:302-328) *)
 Definition handle_signal : M unit :=
@@ -504,9 +481,9 @@ Definition start_process (i : nat) (wait : bool) : M callres :=
     | CmdNotFound => ret (CDone F_NO_FILE)
     | CmdNotExec => ret (CDone F_NOT_EXECUTABLE)
     | CmdOk =>
-      p <- getp i ;;
-      if in_running_states (st p) then ret (CDone F_ALREADY_STARTED)
-      else if pstate_eqb (st p) UNKNOWN then ret (CDone F_FAILED)
+      s <- gets i ;;
+      if in_running_states s then ret (CDone F_ALREADY_STARTED)
+      else if pstate_eqb s UNKNOWN then ret (CDone F_FAILED)
       else
         spawn i ;;;
         reap_all ;;;
@@ -514,15 +491,16 @@ Definition start_process (i : nat) (wait : bool) : M callres :=
         if spawnerr p then ret (CDone F_SPAWN_ERROR)
         else
           transition i ;;;
-          p <- getp i ;;
-          if wait && negb (pstate_eqb (st p) RUNNING) then ret CDefer
+          s <- gets i ;;
+          if wait && negb (pstate_eqb s RUNNING) then ret CDefer
           else ret (CDone 0)
     end.
 
 Definition start_onwait (i : nat) : M (option Z) :=   (* None = NOT_DONE_YET *)
   p <- getp i ;;
+  s <- gets i ;;
   if spawnerr p then ret (Some F_SPAWN_ERROR)
-  else match st p with
+  else match s with
        | RUNNING => ret (Some 0)
        | STARTING => ret None
        | _ => ret (Some F_ABNORMAL_TERMINATION)
@@ -533,23 +511,22 @@ Definition stop_process (i : nat) (wait : bool) : M callres :=
   if mood w <? 1 then ret (CDone F_SHUTDOWN_STATE)
   else if negb (Nat.ltb i nprocs) then ret (CDone F_BAD_NAME)
   else
-    p <- getp i ;;
-    if negb (in_running_states (st p)) then ret (CDone F_NOT_RUNNING)
+    s <- gets i ;;
+    if negb (in_running_states s) then ret (CDone F_NOT_RUNNING)
     else
       err <- stop i ;;
       if err then ret (CDone F_FAILED)
       else
         reap_all ;;;
-        p <- getp i ;;
-        if wait && negb (in_stopped_states (st p)) then ret CDefer
+        s <- gets i ;;
+        if wait && negb (in_stopped_states s) then ret CDefer
         else ret (CDone 0).
 
 Definition stop_onwait (i : nat) : M (option Z) :=
   w <- getw ;;
-  p <- getp i ;;
-  (if pstate_eqb (st p) STOPPING then rollback_adjust i (now w) else ret tt) ;;;   (* stop_report *)
-  p <- getp i ;;
-  if in_stopped_states (st p) then ret (Some 0) else ret None.
+  s <- gets i ;;
+  (if pstate_eqb s STOPPING then rollback_adjust i (now w) else ret tt) ;;;   (* stop_report *)
+  if in_stopped_states s then ret (Some 0) else ret None.
 
 Definition signal_process (i : nat) (sig : Z) (sigok : bool) : M callres :=
   w <- getw ;;
@@ -557,8 +534,8 @@ Definition signal_process (i : nat) (sig : Z) (sigok : bool) : M callres :=
   else if negb (Nat.ltb i nprocs) then ret (CDone F_BAD_NAME)
   else if negb sigok then ret (CDone F_BAD_SIGNAL)
   else
-    p <- getp i ;;
-    if negb (in_signallable_states (st p)) then ret (CDone F_NOT_RUNNING)
+    s <- gets i ;;
+    if negb (in_signallable_states s) then ret (CDone F_NOT_RUNNING)
     else
       err <- signal i sig ;;
       if err then ret (CDone F_FAILED) else ret (CDone 0).
@@ -568,16 +545,16 @@ Definition call_one (k : dkind) (wait : bool) (i : nat) : M callres :=
   match k with DStart => start_process i wait | DStop => stop_process i wait end.
 Definition poll_one (k : dkind) (i : nat) : M (option Z) :=
   match k with DStart => start_onwait i | DStop => stop_onwait i end.
-Definition pred_one (k : dkind) (p : proc) : bool :=
-  match k with DStart => negb (in_running_states (st p)) | DStop => in_running_states (st p) end.
+Definition pred_one (k : dkind) (s : pstate) : bool :=
+  match k with DStart => negb (in_running_states s) | DStop => in_running_states s end.
 
 Fixpoint all_first (k : dkind) (wait : bool) (l : list nat) (cbs : list nat) (res : list (nat * Z))
   : M (list nat * list (nat * Z)) :=
   match l with
   | [] => ret (cbs, res)
   | i :: r =>
-    p <- getp i ;;
-    if pred_one k p then
+    s <- gets i ;;
+    if pred_one k s then
       c <- call_one k wait i ;;
       match c with
       | CDone 0 => all_first k wait r cbs (res ++ [(i, F_SUCCESS)])
@@ -770,7 +747,7 @@ Definition do_pass (o : passop) : M unit :=
   loop_head.
 
 Definition world0 : world :=
-  mkW (map (fun _ => proc0) pconfs) [] [] 1000 [] 1 false [] 0 [] [] [] [] [ESup 1] false false.
+  mkW (fun _ => STOPPED) (fun _ => proc0) [] [] 1000 [] 1 false [] 0 [] [] [] [] [ESup 1] false false.
 
 Definition step (w : world) (o : passop) : world :=
   if crashed w || exited w then w else snd (do_pass o w).
@@ -778,6 +755,7 @@ Definition step (w : world) (o : passop) : world :=
 Definition run (ops : list passop) : world := fold_left step ops world0.
 
 (* boundary snapshot compared with the implementation at every poll() *)
-Definition snapshot (w : world) : list (Z * Z) := map (fun p => (pstate_code (st p), pid p)) (procs w).
+Definition snapshot (w : world) : list (Z * Z) :=
+  map (fun i => (pstate_code (sts w i), pid (procs w i))) (seq 0 nprocs).
 
 End WithConfig.
